@@ -52,6 +52,9 @@ int main(int argc, char** argv, Driver& d);
 
 // a short note about what the worker is doing right now (e.g. the input under test); shown in crash reports
 void note(const std::string& s);
+// tells the watchdog that the current scenario is alive (long explorations call this once per execution); the scenario
+// time limit counts from the last call
+void progress();
 
 // helper: mixed-radix decoding of a scenario index
 struct Mixed {
